@@ -621,6 +621,26 @@ class _Normaliser:
                             ast.copy_location(n_, st)
                         ast.fix_missing_locations(n_)
                     return outg
+        # X.extend(self._gen(...)) / X.update(self._gen(...)) where _gen is a generator of plain `yield v` statements (generator fission):
+        # the generator body with `yield v` -> `acc.append(v)`, then X.extend(acc)
+        if depth > 0 and isinstance(st, ast.Expr) and isinstance(st.value, ast.Call) and isinstance(st.value.func, ast.Attribute) \
+                and st.value.func.attr in ('extend', 'update') and len(st.value.args) == 1 and not st.value.keywords and isinstance(st.value.args[0], ast.Call):
+            gcall = st.value.args[0]
+            gc = self.callee(gcall)
+            if gc is not None and gc[2] not in self.stack and gc[0].name not in ANCHOR_CALLS:
+                got = self._inline_generator(gcall, gc[0], gc[1])
+                if got is not None:
+                    gbody, acc = got
+                    self.stack.append(gc[2])
+                    gbody = self.block(gbody, depth - 1)
+                    self.stack.pop()
+                    tail_e = ast.Expr(value=ast.Call(func=st.value.func, args=[ast.Name(id=acc, ctx=ast.Load())], keywords=[]))
+                    oute = gbody + [tail_e]
+                    for n_ in oute:
+                        if not hasattr(n_, 'lineno'):
+                            ast.copy_location(n_, st)
+                        ast.fix_missing_locations(n_)
+                    return oute
         # statement-level helper calls
         if depth > 0:
             call = None
